@@ -7,6 +7,7 @@ import (
 	"strings"
 
 	"pgregory.net/rapid"
+	"verif/harness/internal/ev"
 )
 
 // ---------------------------------------------------------------- state
@@ -18,6 +19,11 @@ type Flags struct {
 	Tests  bool   `json:"tests"`  // -tests
 	Checks string `json:"checks"` // "" = flag not passed
 	GOOS   string `json:"goos"`   // linux | windows
+	// Pattern: package patterns of the run; "" = ./... (packages named only as
+	// dependencies are analysed for their facts alone)
+	Pattern string `json:"pattern,omitempty"`
+	// Trimpath adds -trimpath to GOFLAGS (Go's build IDs then do not depend on the directory)
+	Trimpath bool `json:"trimpath,omitempty"`
 }
 
 // Conf is one staticcheck.conf. A nil list means the key is absent.
@@ -34,8 +40,9 @@ type Conf struct {
 type Tree struct {
 	GoMod string          `json:"gomod"` // go directive
 	HTTP  bool            `json:"http,omitempty"`
-	On    map[string]bool `json:"on"`   // toggles that are set (absent = false)
-	Conf  map[string]Conf `json:"conf"` // level -> content; levels: parent, root, dep, mid, top
+	Alt   bool            `json:"alt,omitempty"` // the module directory is $D/alt/m instead of $D/m (a second checkout of the same sources)
+	On    map[string]bool `json:"on"`            // toggles that are set (absent = false)
+	Conf  map[string]Conf `json:"conf"`          // level -> content; levels: parent, root, dep, mid, top
 }
 
 type State struct {
@@ -69,7 +76,7 @@ func (s State) key() string {
 
 // Action is one step of a history.
 type Action struct {
-	Kind string `json:"kind"`           // run | toggle | conf | flag | gomod | revert | touch
+	Kind string `json:"kind"`           // run | toggle | conf | flag | gomod | revert | touch | move
 	Name string `json:"name,omitempty"` // toggle name | conf level | flag name | revert mode (all|tree|flags) | touched file
 	Val  string `json:"val,omitempty"`  // flag value | go directive | touch mode (mtime|rewrite)
 	Conf *Conf  `json:"conf,omitempty"` // conf: new content, nil = remove the file
@@ -92,9 +99,11 @@ func (a Action) String() string {
 	case "gomod":
 		return "set go directive of go.mod to " + a.Val
 	case "revert":
-		return fmt.Sprintf("revert %s to the state of run #%d (mod number of runs)", a.Name, a.N)
+		return fmt.Sprintf("revert %s to the state of the run %d before the latest one (cyclically)", a.Name, a.N%16+1)
 	case "touch":
 		return "touch (" + a.Val + ") " + a.Name
+	case "move":
+		return "move the module directory ($D/m <-> $D/alt/m)"
 	}
 	return a.Kind
 }
@@ -120,6 +129,7 @@ var toggles = []string{
 	"mid_uses_old",          // mid calls dep.Old
 	"mid_sa4000",            // an SA4000 trigger in mid
 	"top_sa4000",            // an SA4000 trigger in the target file
+	"top_ignore",            // a //lint:ignore SA4000 directive on that trigger (or on nothing)
 	"top_imports_dep",       // top imports dep directly and calls dep.Old
 	"top_dot",               // top/dot.go with a dot import of dep exists (ST1001)
 	"top_test_problem",      // SA4000 in the in-package test file
@@ -143,7 +153,8 @@ var (
 	menuDot    = []*[]string{nil, lst("example.com/m/dep"), lst("inherit", "example.com/m/dep"), lst()}
 	menuHTTP   = []*[]string{nil, lst("200"), lst("inherit", "418"), lst()}
 
-	flagNames  = []string{"go", "tags", "tests", "checks", "goos"}
+	flagNames  = []string{"go", "tags", "tests", "checks", "goos", "pattern", "trimpath"}
+	patterns   = []string{"", "./top", "./dep ./mid", "./mid/... ./top"}
 	goValues   = []string{"module", "1.23", "1.24", "1.25", "1.26"}
 	chkValues  = []string{"", "all", "inherit,-SA1019", "SA*", "all,-U1000", "ST1003,SA4017,SA4023", "inherit,ST1003", "inherit,-SA4017,-ST1001"}
 	goModVals  = []string{"1.26.0", "1.23", "1.24"}
@@ -209,18 +220,48 @@ func genFlagAction(rt *rapid.T) Action {
 		a.Val = pick(rt, "checks", chkValues)
 	case "goos":
 		a.Val = pick(rt, "goos", []string{"windows", "linux"})
+	case "pattern":
+		a.Val = pick(rt, "pattern", patterns)
+	case "trimpath":
+		a.Val = pick(rt, "trimpath", []string{"true", ""})
 	}
 	return a
 }
 
-func genAction(rt *rapid.T) Action {
-	switch k := rng(rt, "kind", 0, 23); {
+// genAction draws one action. The combination "-trimpath and a moved module
+// directory in one history" is excluded by construction (finding
+// trimpath-second-checkout, see the corpus): a history either may move
+// (mode 1) or may use -trimpath (mode 2) unless both is set.
+func genAction(rt *rapid.T, mode int, both bool) Action {
+	a := genAction0(rt)
+	if !both {
+		if a.Kind == "move" && mode != 1 {
+			ev.Count("excluded_by_construction_move_in_history_that_may_use_trimpath", 1)
+			return Action{Kind: "toggle", Name: pick(rt, "toggle_instead", toggles)}
+		}
+		if a.Kind == "flag" && a.Name == "trimpath" && mode != 2 {
+			ev.Count("excluded_by_construction_trimpath_in_history_that_may_move", 1)
+			return Action{Kind: "flag", Name: "tests", Val: pick(rt, "tests_instead", []string{"false", "true"})}
+		}
+	}
+	return a
+}
+
+func genAction0(rt *rapid.T) Action {
+	switch k := rng(rt, "kind", 0, 24); {
 	case k < 7:
 		return Action{Kind: "run"}
 	case k < 13:
+		if rng(rt, "toggle_target", 0, 2) == 0 {
+			// edits of the target package leave its dependencies cached
+			return Action{Kind: "toggle", Name: pick(rt, "toggle_top", []string{"top_sa4000", "top_ignore", "top_imports_dep", "top_dot", "top_test_problem", "ext_test", "windows_problem"})}
+		}
 		return Action{Kind: "toggle", Name: pick(rt, "toggle", toggles)}
 	case k < 17:
 		a := Action{Kind: "conf", Name: pick(rt, "level", confLevels)}
+		if rng(rt, "level_top", 0, 3) == 0 {
+			a.Name = "top"
+		}
 		if rng(rt, "conf_remove", 0, 3) != 0 {
 			a.Conf = genConf(rt)
 		}
@@ -231,12 +272,14 @@ func genAction(rt *rapid.T) Action {
 		return Action{Kind: "revert", Name: pick(rt, "revert_mode", []string{"all", "tree", "flags"}), N: rng(rt, "revert_to", 0, 9)}
 	case k < 23:
 		return Action{Kind: "touch", Name: pick(rt, "touch_file", touchFiles), Val: pick(rt, "touch_mode", []string{"mtime", "rewrite"})}
-	default:
+	case k < 24:
 		return Action{Kind: "gomod", Val: pick(rt, "gomod", goModVals)}
+	default:
+		return Action{Kind: "move"}
 	}
 }
 
-func genHistory(rt *rapid.T, maxSteps int, allowHTTP bool) *History {
+func genHistory(rt *rapid.T, maxSteps int, allowHTTP, both bool) *History {
 	h := &History{}
 	st := State{Tree: Tree{GoMod: "1.26.0", On: map[string]bool{}, Conf: map[string]Conf{}}, Flags: Flags{Go: "module", Tests: true, GOOS: "linux"}}
 	// initial module: a few toggles set, sometimes a configuration file and non-default flags
@@ -264,12 +307,33 @@ func genHistory(rt *rapid.T, maxSteps int, allowHTTP bool) *History {
 	if rng(rt, "init_gomod", 0, 5) == 5 {
 		st.Tree.GoMod = pick(rt, "init_gomod_val", goModVals)
 	}
+	mode := rng(rt, "mode", 1, 2)
+	if mode == 2 && rng(rt, "init_trimpath", 0, 3) == 3 {
+		st.Flags.Trimpath = true
+	}
+	if rng(rt, "init_pattern", 0, 5) == 5 {
+		st.Flags.Pattern = pick(rt, "init_pattern_val", patterns)
+	}
 	h.Init = st
 	// the first run populates the cache, the last action is a run
 	h.Actions = append(h.Actions, Action{Kind: "run"})
-	n := rng(rt, "steps", (maxSteps-1)/2, maxSteps-2)
+	n := rng(rt, "steps", (maxSteps-1)/2, maxSteps-3)
 	for i := 0; i < n; i++ {
-		h.Actions = append(h.Actions, genAction(rt))
+		a := genAction(rt, mode, both)
+		if a.Kind == "run" && h.Actions[len(h.Actions)-1].Kind == "run" && rng(rt, "rerun", 0, 3) != 0 {
+			// two runs in a row are the cheapest history; keep them rare
+			a = Action{Kind: "toggle", Name: pick(rt, "toggle_not_rerun", toggles)}
+		}
+		h.Actions = append(h.Actions, a)
+	}
+	// at least one run between the first and the last one
+	mid := false
+	for _, a := range h.Actions[1:] {
+		mid = mid || a.Kind == "run"
+	}
+	if !mid && n >= 2 {
+		at := rng(rt, "middle_run", 2, n)
+		h.Actions = append(h.Actions[:at], append([]Action{{Kind: "run"}}, h.Actions[at:]...)...)
 	}
 	if h.Actions[len(h.Actions)-1].Kind != "run" {
 		h.Actions = append(h.Actions, Action{Kind: "run"})
@@ -307,14 +371,21 @@ func apply(st State, a Action, snaps []State) State {
 			st.Flags.Checks = a.Val
 		case "goos":
 			st.Flags.GOOS = a.Val
+		case "pattern":
+			st.Flags.Pattern = a.Val
+		case "trimpath":
+			st.Flags.Trimpath = a.Val != ""
 		}
 	case "gomod":
 		st.Tree.GoMod = a.Val
+	case "move":
+		st.Tree.Alt = !st.Tree.Alt
 	case "revert":
 		if len(snaps) == 0 {
 			break
 		}
-		old := snaps[a.N%len(snaps)].clone()
+		// N = 0 is the run before the latest one (the classic trap: run, edit, run, revert, run)
+		old := snaps[(len(snaps)*16-2-a.N%16)%len(snaps)].clone()
 		switch a.Name {
 		case "tree":
 			st.Tree = old.Tree
@@ -517,7 +588,8 @@ func GetFooBar() int { return 1 }
 
 func helper() int { return 3 }
 ` + httpFn + alt(on["top_imports_dep"], "\n// D calls dep.Old directly.\nfunc D() int { return dep.Old() }\n", "") +
-		alt(on["top_sa4000"], "\n// Same compares x with itself.\nfunc Same(x int) bool { return x == x }\n", "")
+		alt(on["top_sa4000"], "\n// Same compares x with itself.\nfunc Same(x int) bool {\n\t"+alt(on["top_ignore"], "//lint:ignore SA4000 on purpose", "// no directive here")+"\n\treturn x == x\n}\n",
+			alt(on["top_ignore"], "\n// Other is fine.\nfunc Other(x int) bool {\n\t//lint:ignore SA4000 matches nothing\n\treturn x == 1\n}\n", ""))
 
 	if on["top_dot"] {
 		f["m/top/dot.go"] = `package top
@@ -561,7 +633,25 @@ func extTest(x int) bool { return x == x }
 		}
 		f[p] = c.render()
 	}
+	if t.Alt {
+		g := map[string]string{}
+		for p, c := range f {
+			if strings.HasPrefix(p, "m/") {
+				p = "alt/" + p
+			}
+			g[p] = c
+		}
+		f = g
+	}
 	return f
+}
+
+// modDir is the module directory below the history directory.
+func (t Tree) modDir() string {
+	if t.Alt {
+		return "alt/m"
+	}
+	return "m"
 }
 
 // warmModule imports the standard library packages the generated module
